@@ -29,8 +29,8 @@ MANIFEST = {
     "note": "6 generated key layouts x all coordinates x 4 kinds.",
     "design_ref": "3 (C14)",
 }
-PLANS_Q = ["keys_a", "keys_b", "keys_dup", "keys_wrap", "nested"]
-PLANS_T = PLANS_Q + ["keys_c", "keys_dup2"]
+PLANS_Q = ["keys_a", "keys_b", "keys_dup", "keys_wrap", "nested", "keys_sparse"]
+PLANS_T = PLANS_Q + ["keys_sparse2", "keys_c", "keys_dup2"]
 SHARD_TIMEOUT = {"quick": 900, "thorough": 3600}
 worker_init = sweepcheck.worker_init
 
